@@ -18,25 +18,25 @@ def tiers(prop, tier):
                     ('sse2-base@lite', 0, 20000), ('avx512@lite', 0, 20000), ('avx2-checks@lite', 0, 20000)]
         cfgs = ['sse2-base', 'sse42', 'avx', 'avx2', 'avx512', 'avx512-cxx17', 'avx2-checks', 'sse2-checks', 'avx2-dontalign',
                 'scalar', 'O0-debug', 'O3-avx2', 'clang-sse2', 'clang-avx2', 'clang-avx512']
-        return [(c, 1, 'all') for c in cfgs] + [(c, 0, 300000) for c in cfgs] + [('asan-sse2@asan', 1, 'all'), ('asan-avx2@asan', 1, 'all')]
+        return [(c, 1, 'all') for c in cfgs] + [(c, 0, 300000) for c in cfgs] + [('asan-sse2@lite', 1, 'all'), ('asan-avx2@lite', 1, 'all'), ('asan-avx512@lite', 1, 'all')]
     if prop == 'C05':
         if q:
             return [('sse2-base@lite', 0, 30000), ('avx512@lite', 0, 30000), ('sse2-vecassign@lite', 0, 30000), ('avx2-vecassign@lite', 0, 30000)]
         cfgs = ['sse2-base', 'sse42', 'avx', 'avx2', 'avx512', 'avx512-cxx17', 'sse2-vecassign', 'avx2-vecassign', 'avx512-vecassign',
                 'avx2-dontalign', 'scalar', 'O0-debug', 'O3-avx2', 'clang-sse2', 'clang-avx2', 'clang-avx512']
-        return [(c, 0, 400000) for c in cfgs] + [('asan-sse2@asan', 0, 20000), ('asan-avx2@asan', 0, 20000)]
+        return [(c, 0, 400000) for c in cfgs] + [('asan-sse2@lite', 0, 50000), ('asan-avx2@lite', 0, 50000)]
     if prop == 'C18':
         if q:
             return [('sse2-base@lite', 0, 30000), ('avx512@lite', 0, 30000), ('avx2@lite', 0, 30000)]
         cfgs = ['sse2-base', 'sse42', 'avx', 'avx2', 'avx512', 'avx512-cxx17', 'sse2-vecassign', 'avx512-vecassign',
                 'avx2-dontalign', 'scalar', 'O0-debug', 'O3-avx2', 'clang-sse2', 'clang-avx2', 'clang-avx512']
-        return [(c, 0, 400000) for c in cfgs] + [('asan-sse2@asan', 0, 20000), ('asan-avx2@asan', 0, 20000)]
+        return [(c, 0, 400000) for c in cfgs] + [('asan-sse2@lite', 0, 50000), ('asan-avx2@lite', 0, 50000)]
     if prop == 'C20':
         if q:
             return [('sse2-base@lite', 0, 30000), ('avx512@lite', 0, 30000), ('avx2@lite', 0, 30000)]
         cfgs = ['sse2-base', 'sse42', 'avx', 'avx2', 'avx512', 'avx512-cxx17', 'avx2-dontalign', 'scalar', 'O0-debug', 'O3-avx2',
                 'clang-sse2', 'clang-avx2', 'clang-avx512']
-        return [(c, 0, 400000) for c in cfgs] + [('asan-sse2@asan', 0, 20000), ('asan-avx2@asan', 0, 20000)]
+        return [(c, 0, 400000) for c in cfgs] + [('asan-sse2@lite', 0, 50000), ('asan-avx2@lite', 0, 50000)]
     raise KeyError(prop)
 
 
@@ -277,9 +277,9 @@ def write_shards(bdir, ns, headers, prelude, ops, regmacro, simd_all=None):
 def gen_memsim(bdir, config, flags):
     stmts = ['reg_simd_all(v);']
     ops = memsim_ops(config, flags)
-    if config.endswith('@asan'):
-        # sanitised builds cost ~10x to compile: every fifth entry
-        ops = [o for i, o in enumerate(ops) if i % 5 == 0 or '/*keep*/' in o]
+    if config.startswith('asan'):
+        # a sanitizer report kills the process, so it cannot be "unjudged": probes outside the storage contract are left out
+        ops = [o for o in ops if 'F_UNJUDGED' not in o]
     if config.endswith('@lite'):
         # quick tier: every second catalogue entry (exempt and bad-index families kept whole)
         ops = [o for i, o in enumerate(ops) if i % 2 == 0 or 'F_EXEMPT' in o or 'F_BADINDEX' in o or '/*keep*/' in o]
@@ -442,7 +442,7 @@ def viewsim_universes(config, flags, dense=True):
 
 def gen_viewsim(bdir, config, flags):
     files = []; decl = []
-    for ui, (t, shape) in enumerate(viewsim_universes(config, flags, dense=not (config.endswith('@lite') or config.endswith('@asan')))):
+    for ui, (t, shape) in enumerate(viewsim_universes(config, flags, dense=not config.endswith('@lite'))):
         uname, ops, fix = viewsim_universe(t, shape, config, flags)
         fn = f'fsim_shard_{ui}'
         p = os.path.join(bdir, f'shard_{ui:03d}.cpp')
@@ -483,7 +483,7 @@ def gen_mapsim(bdir, config, flags):
     ui = 0
     for i, shapes in enumerate(M_SHAPES):
         for j, t in enumerate(ALLT):
-            if (lite or config.endswith('@asan')) and (i + j) % 2:
+            if lite and (i + j) % 2:
                 continue
             sh = ', '.join('shape_<' + ','.join(map(str, s)) + '>' for s in shapes)
             uname = f'{t}|' + '|'.join('x'.join(map(str, s)) for s in shapes)
